@@ -202,6 +202,34 @@ impl Database {
     pub(crate) fn is_definitively_empty(&self) -> bool {
         self.names.is_none()
     }
+
+    /// Verification hook (only with `--cfg jiff_verif`): see the zoneinfo
+    /// database for details.
+    #[cfg(jiff_verif)]
+    pub(crate) fn verif_set_ttl(
+        &self,
+        zones_ttl: Duration,
+        names_ttl: Duration,
+    ) {
+        let mut zones = self.zones.write().unwrap();
+        zones.ttl = zones_ttl;
+        for czone in zones.zones.iter_mut() {
+            czone.expiration = if zones_ttl == Duration::ZERO {
+                Expiration::expired()
+            } else {
+                Expiration::after(zones_ttl)
+            };
+        }
+        if let Some(ref names) = self.names {
+            let mut inner = names.inner.write().unwrap();
+            inner.ttl = names_ttl;
+            inner.expiration = if names_ttl == Duration::ZERO {
+                Expiration::expired()
+            } else {
+                Expiration::after(names_ttl)
+            };
+        }
+    }
 }
 
 impl core::fmt::Debug for Database {
